@@ -14,7 +14,8 @@
 // knows (final-certificate twin issued by the real CA; fixtures_test.go issuePre), also for
 // chains through a Precertificate Signing Certificate; the log also signs every wrongly derived
 // entry.  A temporal client with SEVERAL shards lives through a history of fan-out (get-roots,
-// a fault on every shard position) and routed (add-chain by NotAfter) calls (multishard_test.go).
+// a fault on every shard position) and routed (add-chain by NotAfter) calls (multishard_test.go);
+// also with several shards configured with ONE base URI and different keys (genSharedURI).
 //
 // One case = the HTTP outcome(s) the transport produced (reconstructed from the transport's own
 // log), the oracle tables (signature pairs that verify under the configured key, verified HERE
@@ -56,6 +57,7 @@ func TestHarness(t *testing.T) {
 		genOthers(t, r, w, fx, rep)
 		genHistories(t, r, w, fx, configs, rep)
 		genMultiShard(t, r, w, fx, rep)
+		genSharedURI(t, r, w, fx, rep)
 	}
 	w.Close()
 }
